@@ -503,8 +503,11 @@ def write_evidence(env, coverage, assumptions, violations):
         "wall_s": round(time.time() - env.t0, 2),
         "violations": violations,
     }
-    os.makedirs(os.path.join(VERIF, "evidence"), exist_ok=True)
-    p = os.path.join(VERIF, "evidence", env.prop + ".json")
+    # evidence/ holds one file per PROPERTY id; shared model components (PARSER, PIPELINE)
+    # that can also be run on their own write to evidence/components/ instead
+    sub = "evidence" if re.fullmatch(r"C\d\d", env.prop) else os.path.join("evidence", "components")
+    os.makedirs(os.path.join(VERIF, sub), exist_ok=True)
+    p = os.path.join(VERIF, sub, env.prop + ".json")
     with open(p, "w") as f:
         json.dump(ev, f, indent=1, sort_keys=True, ensure_ascii=False)
         f.write("\n")
